@@ -37,6 +37,9 @@ def stmt_text(s, ind=0):
     if k == "par":
         return pad + "<\n" + "".join(stmt_text(c, ind + 1) for c in s[1]) + pad + ">\n"
     if k == "loop":
+        if len(s) > 3 and s[3] == "par":
+            # a loop whose body IS a parallel block:  loop n < a | b >
+            return pad + f"loop {fmt_val(s[1])} <\n" + "".join(stmt_text(c, ind + 1) for c in s[2][0][1]) + pad + ">\n"
         return pad + f"loop {fmt_val(s[1])} {{\n" + "".join(stmt_text(c, ind + 1) for c in s[2]) + pad + "}\n"
     if k == "sub":
         cnt = "" if s[1] is None else f"{fmt_val(s[1])} "
@@ -371,7 +374,14 @@ def circuit_sem(circ, overrides=None):
             return ("par" if s.parallel else "seq", [ev(c, E) for c in s.statements])
         raise RefError(f"unknown statement {type(s).__name__}")
 
-    return normalise(("seq", [ev(s, {}) for s in circ.body.statements]))
+    try:
+        return normalise(("seq", [ev(s, {}) for s in circ.body.statements]))
+    except RefError:
+        raise
+    except (TypeError, ValueError, AttributeError, KeyError, IndexError) as ex:
+        # an object where the IR allows none (a macro parameter left in an expanded circuit, a count that is not a
+        # number ...): the circuit has no meaning - a finding for the caller, not a crash of the oracle
+        raise RefError(f"ill-formed circuit: {type(ex).__name__}: {ex}")
 
 
 # ---------------------------------------------------------------------------- generator
@@ -418,7 +428,21 @@ class Gen:
                     c = r.choice([1, 1, 2])
                     b = r.randrange(a + 1, len(base) + 1)
                     sa = "k0" if (self.o["use_lets"] and a == dict(p["lets"]).get("k0")) and r.random() < 0.5 else a
-                    p["maps"].append((name, src, ("slice", sa, b, c if (c != 1 or r.random() < 0.5) else None)))
+                    lets_now = dict(p["lets"])
+                    sc = c if (c != 1 or r.random() < 0.5) else None
+                    if self.o["use_lets"] and sc is not None and r.random() < 0.4:
+                        # a let-valued stride (also one whose value is 1) and a let-valued stop
+                        for nm in ("k1", "k0"):
+                            if lets_now.get(nm) == c:
+                                sc = nm
+                                break
+                    sb = b
+                    if self.o["use_lets"] and r.random() < 0.3:
+                        for nm in ("k1", "nn"):
+                            if lets_now.get(nm) == b:
+                                sb = nm
+                                break
+                    p["maps"].append((name, src, ("slice", sa, sb, sc)))
                     self.regs[name] = base[a:b:c]
         self.lets = dict(p["lets"])
         self.macro_names = []
@@ -540,7 +564,10 @@ class Gen:
                 continue
             if depth < self.max_depth and x < 0.2 and self.o["use_loops"] and kind == "seq":
                 cnt = r.choice([0, 1, 2, 3]) if not self.o["use_lets"] else r.choice([0, 1, 2, "k1"])
-                out.append(("loop", cnt, self.stmts(depth + 1, params, in_macro)))
+                if self.o["use_par"] and depth + 1 < self.max_depth and r.random() < 0.2:
+                    out.append(("loop", cnt, [("par", self.stmts(depth + 2, params, in_macro, kind="par"))], "par"))
+                else:
+                    out.append(("loop", cnt, self.stmts(depth + 1, params, in_macro)))
             elif depth < self.max_depth and x < 0.4 and self.o["use_par"] and kind == "seq":
                 out.append(("par", self.stmts(depth + 1, params, in_macro, kind="par")))
             elif depth < self.max_depth and x < 0.4 and kind == "par":
